@@ -341,6 +341,7 @@ pub fn find_chrom<'a>(v: &'a [ChromInfo], chrom_name: &Name) -> (r: Option<&'a C
 // =====================================================================================
 #[verifier::loop_isolation(false)]
 //@extract fn bigtools/src/utils/cli/bigwigtobedgraph.rs write_bg_singlethreaded
+//@rule R16
 //@rule R7
 //@sub /write_bg_singlethreaded<R: SeekableRead \+ Send \+ 'static>/ => write_bg_singlethreaded min=1
 //@sub /mut bigwig: BigWigRead<R>/ => bigwig: &mut Reader<Value> min=1
@@ -420,6 +421,7 @@ pub fn zoom_mode(bigbed: &mut Reader<BedEntry>, writer: &mut Out, chroms: Vec<Ch
 { unimplemented!() }
 #[verifier::loop_isolation(false)]
 //@extract fn bigtools/src/utils/cli/bigbedtobed.rs write_bed_singlethreaded
+//@rule R16
 //@rule R7
 //@presub /if let Some\(zoom\) = zoom \{\n.*?\n    \} else \{\n/ => if let Some(zoom) = zoom {\n        return zoom_mode(bigbed, writer, chroms, start, end, zoom);\n    } else {\n min=1 count=1
 //@sub /write_bed_singlethreaded<R: Reopen \+ SeekableRead>/ => write_bed_singlethreaded min=1
@@ -651,6 +653,7 @@ pub proof fn mt_text_is_st_text<T: Rec>(f: FileId, table: Seq<ChromInfo>, bufs: 
 // ---------------- bg: the task of one chromosome ----------------
 #[verifier::loop_isolation(false)]
 //@extract fn bigtools/src/utils/cli/bigwigtobedgraph.rs write_bg
+//@rule R16
 //@presub /\A.*?\n    (async fn file_future.*?\n    \})\n\n    let \(mut handle_snd.*\Z/ => \1 min=1 count=1
 //@rule R1
 //@sub /fn file_future<R: SeekableRead \+ 'static>/ => fn bg_file_future min=1
@@ -694,6 +697,7 @@ pub proof fn mt_text_is_st_text<T: Rec>(f: FileId, table: Seq<ChromInfo>, bufs: 
 // ---------------- bg: the producer ----------------
 #[verifier::loop_isolation(false)]
 //@extract fn bigtools/src/utils/cli/bigwigtobedgraph.rs write_bg
+//@rule R16
 //@presub /\A.*?\n(    let mut remaining_chroms = .*?)\n\s*async fn file_future.*?runtime\.spawn\(async move \{\n(        loop \{.*?\n        \})\n    \}\);\n\n    let data_handle.*\Z/ => fn bg_produce(bigwig: &Reader<Value>, inmemory: bool, handle_snd: &mut Tx<Task<Value>>, buf_snd: &mut Tx<StageBuf>) -> Result<(), BBIReadError> {\n\1\n\2\n} min=1 count=1
 //@rule R1
 //@sub /(\w+)\.reverse\(\);/ => vec_reverse(&mut \1); min=0
@@ -738,6 +742,7 @@ pub proof fn mt_text_is_st_text<T: Rec>(f: FileId, table: Seq<ChromInfo>, bufs: 
 // ---------------- bg: joining the tasks ----------------
 #[verifier::loop_isolation(false)]
 //@extract fn bigtools/src/utils/cli/bigwigtobedgraph.rs write_bg
+//@rule R16
 //@presub /\A.*?let data_handle = runtime\.spawn\(async move \{\n(        loop \{.*?\n        \})\n    \}\);\n    runtime\.block_on.*\Z/ => fn bg_join_tasks(handle_rcv: &mut Mailbox<Task<Value>>) -> Result<(), BBIReadError> {\n\1\n} min=1 count=1
 //@rule R1
 //@ret r
@@ -762,6 +767,7 @@ pub proof fn mt_text_is_st_text<T: Rec>(f: FileId, table: Seq<ChromInfo>, bufs: 
 // ---------------- bg: the hand-over loop ----------------
 #[verifier::loop_isolation(false)]
 //@extract fn bigtools/src/utils/cli/bigwigtobedgraph.rs write_bg
+//@rule R16
 //@presub /\A.*runtime\.block_on\(async move \{\n(        loop \{.*?\n        \})\n    \}\)\?;\s*Ok\(\(\)\)\s*\}\s*\Z/ => fn bg_hand_over(buf_rcv: &mut Mailbox<StageBuf>, data_handle: DataHandle, mut out_file: Out) -> Result<Out, BBIReadError> {\n\1\n} min=1 count=1
 //@rule R1
 //@sub /return Ok::<_, BBIReadError>\(\(\)\);/ => return Ok::<_, BBIReadError>(out_file); min=1
@@ -803,6 +809,7 @@ pub proof fn mt_text_is_st_text<T: Rec>(f: FileId, table: Seq<ChromInfo>, bufs: 
 // ---------------- bed: the task of one chromosome ----------------
 #[verifier::loop_isolation(false)]
 //@extract fn bigtools/src/utils/cli/bigbedtobed.rs write_bed
+//@rule R16
 //@presub /\A.*?\n    (async fn file_future.*?\n    \})\n\n    let \(mut handle_snd.*\Z/ => \1 min=1 count=1
 //@rule R1
 //@sub /fn file_future<R: SeekableRead \+ 'static>/ => fn bed_file_future min=1
@@ -846,6 +853,7 @@ pub proof fn mt_text_is_st_text<T: Rec>(f: FileId, table: Seq<ChromInfo>, bufs: 
 // ---------------- bed: the producer ----------------
 #[verifier::loop_isolation(false)]
 //@extract fn bigtools/src/utils/cli/bigbedtobed.rs write_bed
+//@rule R16
 //@presub /\A.*?\n(    let mut remaining_chroms = .*?)\n\s*async fn file_future.*?runtime\.spawn\(async move \{\n(        loop \{.*?\n        \})\n    \}\);\n\n    let data_handle.*\Z/ => fn bed_produce(bigbed: &Reader<BedEntry>, inmemory: bool, handle_snd: &mut Tx<Task<BedEntry>>, buf_snd: &mut Tx<StageBuf>) -> Result<(), BBIReadError> {\n\1\n\2\n} min=1 count=1
 //@rule R1
 //@sub /(\w+)\.reverse\(\);/ => vec_reverse(&mut \1); min=0
@@ -890,6 +898,7 @@ pub proof fn mt_text_is_st_text<T: Rec>(f: FileId, table: Seq<ChromInfo>, bufs: 
 // ---------------- bed: joining the tasks ----------------
 #[verifier::loop_isolation(false)]
 //@extract fn bigtools/src/utils/cli/bigbedtobed.rs write_bed
+//@rule R16
 //@presub /\A.*?let data_handle = runtime\.spawn\(async move \{\n(        loop \{.*?\n        \})\n    \}\);\n    runtime\.block_on.*\Z/ => fn bed_join_tasks(handle_rcv: &mut Mailbox<Task<BedEntry>>) -> Result<(), BBIReadError> {\n\1\n} min=1 count=1
 //@rule R1
 //@ret r
@@ -914,6 +923,7 @@ pub proof fn mt_text_is_st_text<T: Rec>(f: FileId, table: Seq<ChromInfo>, bufs: 
 // ---------------- bed: the hand-over loop ----------------
 #[verifier::loop_isolation(false)]
 //@extract fn bigtools/src/utils/cli/bigbedtobed.rs write_bed
+//@rule R16
 //@presub /\A.*runtime\.block_on\(async move \{\n(        loop \{.*?\n        \})\n    \}\)\?;\s*Ok\(\(\)\)\s*\}\s*\Z/ => fn bed_hand_over(buf_rcv: &mut Mailbox<StageBuf>, data_handle: DataHandle, mut out_file: Out) -> Result<Out, BBIReadError> {\n\1\n} min=1 count=1
 //@rule R1
 //@sub /return Ok::<_, BBIReadError>\(\(\)\);/ => return Ok::<_, BBIReadError>(out_file); min=1
@@ -1068,6 +1078,7 @@ pub open spec fn regions_clean<T>(f: FileId, ls: Seq<Result<LineText, IoErr>>, n
 
 #[verifier::loop_isolation(false)]
 //@extract fn bigtools/src/utils/cli/bigwigtobedgraph.rs write_bg_from_bed
+//@rule R16
 //@sub /write_bg_from_bed<R: Reopen \+ SeekableRead \+ Send \+ 'static>/ => write_bg_from_bed min=1
 //@sub /mut bigbed: \w+<R>/ => bigbed: &mut Reader<Value> min=1
 //@sub /out_file: File/ => out_file: &mut Out min=1
@@ -1129,6 +1140,7 @@ pub open spec fn regions_clean<T>(f: FileId, ls: Seq<Result<LineText, IoErr>>, n
 
 #[verifier::loop_isolation(false)]
 //@extract fn bigtools/src/utils/cli/bigbedtobed.rs write_bed_from_bed
+//@rule R16
 //@sub /write_bed_from_bed<R: Reopen \+ SeekableRead \+ Send \+ 'static>/ => write_bed_from_bed min=1
 //@sub /mut bigbed: \w+<R>/ => bigbed: &mut Reader<BedEntry> min=1
 //@sub /out_file: File/ => out_file: &mut Out min=1
